@@ -12,6 +12,24 @@ CHECKS = {
         text="Random and small-scope operation sequences over Tour, Registry, RegistryContext and RouteContext are compared with reference models after every step; shrunk counterexamples are replay files. Gives 'held on everything explored' for histories up to 40 ops; the structures are small and sequential, so model comparison over many histories is the fitting level.",
         note="Trusted: the reference models in harness/src/engines/model.rs; identity of jobs/actors by pointer as in the code. Insert indices restricted to the callers' domain.",
         design_ref="4/C14"),
+    "C09": dict(
+        engine="order", category="exploration",
+        technique="property-based testing of order laws over generated triples (proptest) with a lexicographic specification oracle",
+        text="Generated triples of insertion-cost vectors (lengths 0-8, +-0, denormals, huge values, shared prefixes) and of synthetic solutions under goals built with the public GoalBuilder (single layers and dominance layers) are checked for reflexivity, antisymmetry, transitivity, agreement with the lexicographic specification, sort safety and add/sub inversion. Order laws are universally quantified algebraic laws, which random triples with targeted value classes attack directly.",
+        note="Trusted: the numeric lexicographic specification in harness/src/engines/order.rs; both readings of per-component order (+0==-0 numeric, IEEE total order) are accepted for InsertionCost; NaN excluded.",
+        design_ref="4/C09"),
+    "C16": dict(
+        engine="routing", category="exploration",
+        technique="property-based differential testing of routing providers against a direct specification (proptest)",
+        text="Generated matrix sets whose entries encode (matrix, from, to), passed in permuted order with scaled profiles and unsorted timestamps, are queried exhaustively/randomly and compared with a direct specification of indexing, scaling, bracketing and interpolation; named classes of inconsistent sets must be rejected at build time; the pragmatic reader's profile mapping and errorCodes handling and the coordinate approximation are checked the same way.",
+        note="Trusted: the specification functions in harness/src/engines/routing.rs; matrix timestamps whole seconds; queries only for profiles that have data.",
+        design_ref="4/C16"),
+    "C17": dict(
+        engine="algos", category="exploration",
+        technique="property-based testing of algorithm contracts with independent validity predicates (proptest)",
+        text="LKH re-sequencing, DBSCAN and (hierarchical) k-medoids are run on generated geometry with many ties/duplicates/collinear points and their outputs are validated by independent predicates (permutation/start/cost, disjointness/core/density-reachability by BFS, partition/nearest-medoid). Termination is bounded by a deterministic work bound. Found and fixed three defects (see known_findings.json).",
+        note="Trusted: the validity predicates in harness/src/engines/algos.rs; LKH adjacency built like the shipped caller; k in 1..=n; liveness only bounded (1e7 cost evaluations).",
+        design_ref="4/C17"),
 }
 
 PENDING_REASON = "check not built yet in this round (planned in DESIGN.md; property-based testing applies)"
